@@ -288,7 +288,7 @@ def check(run: Run):
         for sub in pmap(_allperm_events, tasks):
             events += sub
     # random bases and composition triples
-    nb = run.pick(40, 400)
+    nb = run.pick(40, 3000)
     for sub in pmap(_random_basis_events, [(run.seed * 31 + i, 10) for i in range(nb)]):
         events += sub
     # corruptions
